@@ -116,7 +116,7 @@ static void gen_history(Rng &r, Plan &p, int mode, bool c04) {
   } else if (mode == 9) {  // one failing call of the daemon on a named kind of queue file, early in that file's use (rare paths: pqadd, getinfo, markdone, addbounce, injectbounce, job_close)
     Fault f; f.actor = "qmail-send"; f.path = r.pick(std::vector<std::string>{"/bounce/", "/info/", "/local/", "/remote/", "/mess/", "/todo/"});
     f.call = r.pick(std::vector<CallId>{C_STAT, C_OPEN, C_READ, C_WRITE, C_FSYNC, C_UNLINK, C_UTIMES});
-    f.nth = (int)r.range(1, 4); f.kind = "error"; f.err = r.pick(std::vector<int>{EIO, ENOMEM, ENFILE, EACCES});
+    f.nth = (int)r.range(1, 4); f.kind = "error"; f.err = r.pick(std::vector<int>{EIO, ENOMEM, ENFILE, EACCES, EINTR, EINTR});   // (EINTR: the daemon's handlers are installed without SA_RESTART; an interrupted fsync or write has not happened)
     if (r.chance(0.5)) {   // the startup scan (pqstart/pqadd) only sees messages that exist at boot: stop, restart, and fault the second daemon
       nap(); p.ops.push(Json::obj().set("op", "shutdown").set("max_s", 200000)); p.ops.push(Json::obj().set("op", "boot"));
       f.actor = "qmail-send#2"; if (r.chance(0.7)) { f.call = C_STAT; f.path = r.pick(std::vector<std::string>{"/info/", "/local/", "/remote/", "/remote/", "/todo/"}); }
@@ -276,7 +276,9 @@ static bool gen_c01(uint64_t seed, const std::string &tier, uint64_t i, Plan &p)
       }
       p.faults.push_back(f);
       what += "@call" + std::to_string(site);
-      if ((kind == 1 || kind == 2 || kind == 3) && (site % 4) == 0) {
+      // (also after a failing call: the program then cleans up on its way out, and a failure inside that clean-up - an unlink that does not
+      // work - must still leave something the daemon can collect)
+      if (((kind == 1 || kind == 2 || kind == 3) && (site % 4) == 0) || (kind == 0 && (site % 2) == 0)) {
         // follow the leftovers: the daemon must collect them after 36 h (+ at most two cleanup periods)
         p.ops.push(Json::obj().set("op", "boot"));
         p.ops.push(Json::obj().set("op", "sleep").set("s", 129600 + 2 * 76431 + 200));
@@ -624,8 +626,11 @@ static bool gen_c14(uint64_t seed, const std::string &tier, uint64_t i, Plan &p)
   if (r.chance(0.2)) { p.ops.push(Json::obj().set("op", "sleep").set("s", (long long)r.range(1, 500))); p.ops.push(Json::obj().set("op", "signal").set("to", "qmail-send").set("sig", "ALRM")); }
   // the bounce injection itself may fail: duplicates allowed, losses not
   if (i % 5 == 4) { Fault f; f.actor = "qmail-queue"; f.call = r.pick(std::vector<CallId>{C_WRITE, C_FSYNC, C_LINK, C_OPEN, C_READ}); f.nth = (int)r.range(3, 25); f.kind = "error"; f.err = EIO; p.faults.push_back(f); }
+  // a write on the bounce record takes only a few bytes and the next one fails outright (disk full), later ones work: the record must
+  // come out exactly once, neither cut nor doubled
+  if (i % 5 == 0 && p.faults.empty() && r.chance(0.5)) { Fault a; a.actor = "qmail-send#"; a.call = C_WRITE; a.path = "/bounce/"; a.nth = (int)r.range(1, 3); a.kind = "short"; a.arg = r.pick(std::vector<int64_t>{1, 5, 10, 17, 40}); Fault b = a; b.nth = a.nth + 1; b.kind = "error"; b.err = r.pick(std::vector<int>{ENOSPC, EIO, EDQUOT}); p.faults.push_back(a); p.faults.push_back(b); }
   // ... or the daemon cannot even start the queue program for the bounce (no process slot, no descriptors): it says so and tries again later
-  if (i % 5 == 0 && r.chance(0.5)) { Fault f; f.actor = "qmail-send#"; f.call = r.pick(std::vector<CallId>{C_FORK, C_PIPE}); f.nth = (int)r.range(1, 3); f.kind = "error"; f.err = r.pick(std::vector<int>{EAGAIN, ENOMEM, EMFILE, ENFILE}); p.faults.push_back(f); }
+  if (i % 5 == 0 && p.faults.empty() && r.chance(0.5)) { Fault f; f.actor = "qmail-send#"; f.call = r.pick(std::vector<CallId>{C_FORK, C_PIPE}); f.nth = (int)r.range(1, 3); f.kind = "error"; f.err = r.pick(std::vector<int>{EAGAIN, ENOMEM, EMFILE, ENFILE}); p.faults.push_back(f); }
   // a signal interrupts the daemon while it waits for the queue child that takes the bounce (wait returns EINTR once)
   if (i % 5 == 1 && r.chance(0.6)) { Fault f; f.actor = "qmail-send"; f.call = C_WAITPID; f.nth = (int)r.range(1, 3); f.kind = "eintr"; p.faults.push_back(f); }
   // one transient allocation failure in the daemon (it does not exit on out-of-memory: it waits and retries the very allocation;
